@@ -8,7 +8,7 @@ reg("C16",
     theorems=["c16_roundtrip", "c16_truncation", "c16_prefix_intact", "c16_corruption_prefix_intact",
               "c16_header_corruption_partial", "c16_body_corruption_refuted", "c16_no_altered_block_refuted",
               "c16_header_length_corruption_refuted", "c16_truncation_refuted_before_fix",
-              "c16_name_roundtrip", "c16_name_parse_sound", "c16_fetch"],
+              "c16_name_roundtrip", "c16_name_parse_sound", "c16_fetch", "c16_written_is_seq_ok", "c16_unfixed_writer_accepts_empty"],
     partial=[{"theorem": "c16_header_corruption_partial", "full": "C16_header_corruption_full (Spec/C16_Spec.v)",
               "gap": "header bytes that locate the start of the message stream (version byte set to 0, the two "
                      "content-type-length bytes): the format has no synchronisation marker, the reader parses frames from "
